@@ -32,6 +32,98 @@ def _override(M, E, name: str):
     return M.resolve(name)
 
 
+def _bound_otherwise(M, E, name: str) -> bool:
+    """``name`` is bound in the body of M (or of a class that precedes E in the resolution order of M) by something that is not a `def`:
+    an assignment (`name = factory(...)`, `name = other_method`), an import, a loop ... - an override that the rule cannot read"""
+    for c in M.mro():
+        if c is E or E.is_subclass_of(c):
+            break
+        if name in c.methods:
+            return False
+        if name in c.assigns:
+            return True
+        for st in c.node.body:
+            if isinstance(st, (ast.FunctionDef, ast.AsyncFunctionDef, ast.ClassDef)):
+                if st.name == name:
+                    return True  # (a def the class table does not list: conditional / replaced / a class of that name)
+                continue
+            for n in walk_no_nested(st):
+                if isinstance(n, ast.Name) and isinstance(n.ctx, (ast.Store, ast.Del)) and n.id == name:
+                    return True
+                if isinstance(n, ast.alias) and (n.asname or n.name.split('.')[0]) == name:
+                    return True
+                if isinstance(n, (ast.FunctionDef, ast.AsyncFunctionDef, ast.ClassDef)) and n.name == name:
+                    return True
+                if isinstance(n, ast.Call) and call_name(n) in ('setattr', 'delattr', 'locals', 'vars'):
+                    return True
+        if c.node.decorator_list or any(k.arg != 'metaclass' or unparse(k.value) not in ('abc.ABCMeta', 'ABCMeta') for k in c.node.keywords):
+            return True  # a class decorator / an unknown metaclass may add methods
+    return False
+
+
+def _is_new_function(f) -> bool:
+    """the function is not in the inventory of the reference tree"""
+    from ..normal import inventory
+
+    inv = inventory()
+    if inv is None:
+        return False
+    key = f'{f.file}::{f.qualname}'
+    return key not in inv and key.replace('.<locals>', '') not in inv
+
+
+def _applies_configuration(f, call: ast.Call, own_params: set, depth: int = 2):
+    """does this call, made in the operator ``f``, apply the configuration that ``f`` was given?  True: it runs a function new with respect
+    to the reference tree (a method reached through the resolution order of the class, a local closure) whose body calls
+    self.set_configuration(<the argument>) unconditionally; None: it runs such a new function and what that does is not established;
+    False: it is a call of a function of the reference tree or of another object"""
+    fn = call.func
+    h, bound = None, {}
+    if isinstance(fn, ast.Attribute) and isinstance(fn.value, ast.Name) and fn.value.id == 'self' and f.cls is not None:
+        h = f.cls.resolve(fn.attr)
+        if h is None:
+            # not a method the class table knows: bound by assignment in a class body, or a plain attribute
+            return None if any(fn.attr in c.assigns for c in f.cls.mro()) else False
+        if not _is_new_function(h):
+            return False
+        if h.node.decorator_list:
+            return None
+        params = h.positional_params()[1:]
+    elif isinstance(fn, ast.Name):
+        local = [n for n in ast.walk(f.node) if isinstance(n, (ast.FunctionDef, ast.AsyncFunctionDef)) and n is not f.node and n.name == fn.id]
+        lam = [n for n in walk_no_nested(f.node) if isinstance(n, ast.Assign) and isinstance(n.value, ast.Lambda) and any(isinstance(t, ast.Name) and t.id == fn.id for t in n.targets)]
+        if lam:
+            return None
+        if not local:
+            r = f.module and getattr(f.module, 'functions', {}).get(fn.id)
+            if r is not None and _is_new_function(r) and any(isinstance(a, ast.Name) and a.id == 'self' for a in list(call.args) + [k.value for k in call.keywords]):
+                return None
+            return False
+        if len(local) != 1 or local[0].decorator_list:
+            return None
+        h = type('H', (), {'node': local[0]})()
+        a_ = local[0].args
+        params = [x.arg for x in a_.posonlyargs + a_.args]
+        bound = {p_: p_ for p_ in own_params if p_ not in params}  # free variables of the closure
+    else:
+        return False
+    if any(isinstance(a, ast.Starred) for a in call.args) or any(k.arg is None for k in call.keywords) or len(call.args) > len(params):
+        return None
+    given = dict(bound)
+    for p_, a in list(zip(params, call.args)) + [(k.arg, k.value) for k in call.keywords]:
+        t = unparse(inline_locals(f.node, a))
+        if t in own_params:
+            given[p_] = t
+    for st in _statements(h.node.body):
+        if isinstance(st, ast.Expr) and isinstance(st.value, ast.Call) and unparse(st.value.func) == 'self.set_configuration' and len(st.value.args) + len(st.value.keywords) == 1:
+            arg = unparse(inline_locals(h.node, (st.value.args + [k.value for k in st.value.keywords])[0]))
+            if arg in given:
+                return True
+        if not isinstance(st, (ast.Expr, ast.Assign, ast.AnnAssign)):
+            break
+    return None
+
+
 def recursive_methods(E) -> dict[str, object]:
     """methods of Expression that call the same method on their children"""
     out = {}
@@ -77,6 +169,10 @@ def run(ctx: Ctx) -> None:
     if len(rec) < 15:
         raise AnalysisError(f'C16.T1: only {len(rec)} recursive tree methods found in Expression')
     for name, f in sorted(rec.items()):
+        if _bound_otherwise(M, E, name):
+            ctx.add('C16.T1', f'MultipleExpression.{name}', None, M, f'{name} is bound in the class body by something other than a `def` (an assignment, a generated method): what an instance of '
+                    f'MultipleExpression runs for {name} is not in a form the rule understands', 'bound otherwise')
+            continue
         if name in ALL_MEMBERS:
             g = _override(M, E, name)
             ok = g is None
@@ -97,6 +193,9 @@ def run(ctx: Ctx) -> None:
         ctx.add('C16.T1', f'MultipleExpression.{name}', ok, g, f'{name} forwards to the selected member with ({", ".join(g.positional_params()[1:])})' if ok else (why or f'{name}: the delegation to the selected member is not in a recognised form: {body}'), str(body), positive=ok is False)
     for name in ACCESSORS:
         g = _override(M, E, name)
+        if _bound_otherwise(M, E, name):
+            ctx.add('C16.T1', f'MultipleExpression.{name}', None, M, f'{name} is bound in the class body by something other than a `def`: what answers for the catalog is not in a form the rule understands', name)
+            continue
         if g is None:
             ctx.add('C16.T1', f'MultipleExpression.{name}', False, M, f'{name} is not overridden in MultipleExpression: the base-class version answers for the catalog node itself, not for the selected member', name, positive=True)
             continue
@@ -291,6 +390,14 @@ return (_N, step)
         ok = ok and all(isinstance(r.value, ast.Tuple) and r.value.elts and unparse(inline_locals(f.node, r.value.elts[0])) == 'self.get_configuration()' for r in rets)
         # positive part: no move before the whole configuration handed in has been applied
         if mods and not by_hand and not (len(setc) >= 1 and all(any(c.dominates(c.node_of(s_), c.node_of(m)) for s_ in setc) for m in mods)):
+            # the configuration may be applied inside a function that the reference tree does not have (a method of a new base class, a
+            # local closure, ...): such a call is followed; one that cannot be read leaves the verdict open
+            others = [(n, _applies_configuration(f, n, own_params)) for n in walk_no_nested(f.node) if isinstance(n, ast.Call)]
+            through = setc + [n for n, v in others if v is True and c.node_of(n) is not None]
+            if any(v is None for _n, v in others) or (through and all(any(c.dominates(c.node_of(s_), c.node_of(m)) for s_ in through) for m in mods)):
+                ctx.add('C16.T4', f'CentralController.{name}', None, f, f'{name}: the configuration handed in is applied (or may be) inside a function that is new with respect to the reference tree; '
+                        f'{name} no longer has the shape set_configuration / circular moves / get_configuration', name)
+                continue
             ctx.add('C16.T4', f'CentralController.{name}:starts-from-argument', False, f,
                     f'{name} moves a controller without first applying the configuration it was given (self.set_configuration(current_config)): the other controllers keep whatever an earlier call left, so the result is not a function of the argument and increase / decrease are not inverse', 'start', positive=True)
             continue
